@@ -1068,6 +1068,13 @@ func (in *Interp) appendSlice(s Value, more Value, c *ssa.CallCommon) Value {
 		for i := 0; i < len(m); i++ {
 			add = append(add, int64(m[i]))
 		}
+	case *Sym:
+		// appending opaque content: the result is an opaque slice (a copy when the target is nil)
+		var t types.Type = m.T
+		if len(c.Args) > 0 {
+			t = c.Args[0].Type()
+		}
+		return &Sym{Expr: "append(" + Show(s) + "," + m.Name() + "...)", T: t}
 	default:
 		in.Undecided("append of %s", Show(more))
 	}
